@@ -194,3 +194,17 @@ add(Gram("c4", Level([
     Named("arg", "t", ["top"], arity="req"),
     Cmds([Cmd(["add"], _c1_add)]),
 ]), short_flags="n", short_args="t", note="required top-level argument before a subcommand"))
+
+add(Gram("g4", Level([
+    Named("switch", "a", ["alpha"]),
+    Named("arg", "d", ["delta"], arity="many"),
+    Named("arg", "f", ["fall"], arity="fallback", default=1),
+]), short_flags="a", short_args="df", note="switch declared before a repeated argument"))
+
+_o3 = Group(_ab, "opt")
+_o3.default = (0, 0)
+add(Gram("o3", Level([_o3, Named("switch", "s", ["sw"])], make=lambda v: ((v[0].fields[0] if v[0].var == 1 else (0, 0)), v[1])),
+         short_flags="s", short_args="ab", note="group of two required arguments under fallback_with"))
+add(Gram("a4", None, short_flags="abcs", names=("abcs", ["alpha", "beta", "gamma", "sw"], []), note="repeated choice between three flags"))
+C01_GRAMMARS.append("g4")
+C06_GRAMMARS.append("o3")
